@@ -51,6 +51,22 @@ Theorem C23_source_spec : forall user traj,
   (user = None -> forall m ms, traj = Packed (m :: ms) -> source_matrix user traj = Some m).
 Proof. exact source_spec. Qed.
 
+(* every noise trajectory: get_sequences yields sum(reps) SequenceData, and the k-th one answers with the pipeline
+   (source selection, cutoff, SLM mask, switch at slm_end) applied to the matrix of ITS OWN trajectory — the k-th
+   element of the reps expansion — for every list of trajectories, whatever their matrices and repetitions.  With
+   C23_mask_spec this gives the entrywise spec of every yielded matrix in terms of its own trajectory's matrix. *)
+Theorem C23_every_trajectory_own_matrix : forall user trajs c targets slm_end t,
+  sequences_at user trajs c targets slm_end t =
+    map (fun tr => interaction_at user tr c targets slm_end t) (expand_trajs trajs) /\
+  length (sequences_at user trajs c targets slm_end t) = length (expand_trajs trajs) /\
+  forall k tr, nth_error (expand_trajs trajs) k = Some tr ->
+    nth_error (sequences_at user trajs c targets slm_end t) k = Some (interaction_at user tr c targets slm_end t).
+Proof. exact sequences_at_own_trajectory. Qed.
+
+Theorem C23_trajectory_count : forall trajs,
+  length (expand_trajs trajs) = fold_right (fun tr acc => (snd tr + acc)%nat) 0%nat trajs.
+Proof. exact expand_trajs_length. Qed.
+
 (* query times (doubled): on both backends the time at which the matrix of step k is queried lies inside
    the step [t_k, t_(k+1)], hence a step ending before slm_end uses the masked matrix and a step starting
    at or after slm_end the full one *)
